@@ -180,14 +180,14 @@ def swTable (S : Matrix) (gapOpen : Int) (r q : List Nat) : Table :=
 /-- `maxS, maxI, maxJ` of `SWAffine` after the fill: the cells are visited in row-major order
     and a cell replaces the current best when `score > 0 && score >= maxS`
     (after fix F11; the pinned tree also required `matched`). -/
+def swBestStep (i j : Nat) (cell : Cell) (best : Int × Nat × Nat) : Int × Nat × Nat :=
+  match cell.d with
+  | some s => if s > 0 ∧ s ≥ best.1 then (s, i, j) else best
+  | none => best
+
 def swBestRow (i : Nat) : List Cell → Nat → (Int × Nat × Nat) → (Int × Nat × Nat)
   | [], _, best => best
-  | cell :: cs, j, best =>
-    let best :=
-      match cell.d with
-      | some s => if s > 0 ∧ s ≥ best.1 then (s, i, j) else best
-      | none => best
-    swBestRow i cs (j + 1) best
+  | cell :: cs, j, best => swBestRow i cs (j + 1) (swBestStep i j cell best)
 
 def swBestRows : List (List Cell) → Nat → (Int × Nat × Nat) → (Int × Nat × Nat)
   | [], _, best => best
